@@ -412,12 +412,8 @@ func runJournal(t *sim.T, which string, tier string) *sim.Violation {
 			reuse = append(reuse, r)
 		}
 	}
-	recycle := t.Chance(1, 6)
-	if recycle {
-		t.Probe("source-recycles-feed-envelope")
-	}
 	build := func(k int, a, b time.Time) (*journal.Journal, *sim.Violation) {
-		src := &sliceSource{recycle: recycle}
+		src := &sliceSource{}
 		if long {
 			src.items = reuse[:k:k]
 			var j *journal.Journal
